@@ -122,6 +122,7 @@ class ClassInfo:
         self.methods = {}      # name -> FuncInfo (property getter under its name)
         self.setters = {}      # name -> FuncInfo
         self.attrs = {}        # name -> list of ast value nodes (class-level assigns)
+        self.nested = {}       # name -> ClassInfo of a class defined in this class's body
         self.base_exprs = node.bases
         self._bases = None
         self._mro = None
@@ -185,6 +186,8 @@ class ClassInfo:
                 return ('method', c.methods[name], c)
             if name in c.attrs:
                 return ('attr', ValueRef(c.modname, name, c.attrs[name], owner=c), c)
+            if name in c.nested:
+                return ('class', c.nested[name], c)
         return None
 
     def lookup_after(self, start_cls, name):
@@ -344,6 +347,13 @@ class Model:
             elif isinstance(st, ast.AnnAssign) and st.value is not None:
                 for n in _target_names(st.target):
                     ci.attrs.setdefault(n, []).append(st.value)
+            elif isinstance(st, ast.ClassDef):
+                # a class defined in the class body: reached as an attribute of the outer class
+                inner = ClassInfo(u.modname, st, self)
+                inner.qualname = ci.qualname + '.' + st.name
+                self.classes[inner.qualname] = inner
+                ci.nested[st.name] = inner
+                self._index_class(u, inner)
 
     def _index_nested(self, u, fi):
         for node in _walk_no_nested_scopes(fi.node):
